@@ -8,7 +8,13 @@
     rhs v …                              (`rhs_`)
     cluster <dim> <band> <nobs> a_1 … a_nobs v_1 … v_size     (every cluster of OD.clusters, in order)
     minx <k> i_1 … i_k
+    act apriori|aposteriori              (`m_0_apriori()`: kind of the actual reference standard deviation;
+                                          kept in the driver state, default aposteriori — not part of `NetProblem`)
     run env|chol|gso|svd
+  Answers of `run`: `R x …`, `R r …`, `R pvv v`, `R defect d`, `R hA <i> …` (m lines), `R hb …`,
+    `R qxx <i> v_1 … v_n` (n lines, all pairs `qxx(i,j)`), `R qbb <i> v_1 … v_m` (m lines, all pairs `qbb(i,j)`),
+    `R wobs …` (`weight_obs`), `R sobs …` (`stdev_obs`), `R wres …` (`wcoef_res`); a line any of whose entries is
+    an error is printed as `R <tag> throw <ErrKind>` (the first error in index order) — or a single `R throw <ErrKind>`.
   Usage: drv_netfacade [float|rat]
 -/
 import Gama.Proto
@@ -19,19 +25,32 @@ variable {K : Type} [Scalar K] [Wire K]
 
 structure St (K : Type) where
   np : Option (NetProblem K) := none
+  act : Stats.SigmaAct := .aposteriori
 
 def showVec (tag : String) (v : Array K) : String := tag ++ v.foldl (fun s x => s ++ " " ++ Wire.render x) ""
 
 def bool? : String → Option Bool
   | "0" => some false | "1" => some true | _ => none
 
-def answerLines (np : NetProblem K) (alg : Alg) : String :=
+/-- `tag v_1 … v_k` with `v_j = f j` (1-based); `tag throw <ErrKind>` for the first error in index order
+    (harness/c01_net.cpp `row_line`) -/
+def rowLine (tag : String) (k : Nat) (f : Nat → Except ErrKind K) : String :=
+  match (List.range k).mapM fun j => f (j + 1) with
+  | .ok vs => showVec tag vs.toArray
+  | .error e => tag ++ " throw " ++ e.name
+
+def answerLines (np : NetProblem K) (act : Stats.SigmaAct) (alg : Alg) : String :=
   match netSolve alg np with
   | .error e => "R throw " ++ e.name
   | .ok a =>
     let rows := (List.range np.m).map fun i => showVec s!"R hA {i + 1}" (a.Ad.getD i #[])
+    let qxx := (List.range np.n).map fun i => rowLine s!"R qxx {i + 1}" np.n (a.qxx (i + 1))
+    let qbb := (List.range np.m).map fun i => rowLine s!"R qbb {i + 1}" np.m (a.qbb (i + 1))
     "\n".intercalate ([showVec "R x" a.x, showVec "R r" a.r, "R pvv " ++ Wire.render a.pvv, s!"R defect {a.defect}"]
-      ++ rows ++ [showVec "R hb" a.bd])
+      ++ rows ++ [showVec "R hb" a.bd] ++ qxx ++ qbb
+      ++ [rowLine "R wobs" np.m (fun i => .ok (weightObs np i)),
+          rowLine "R sobs" np.m (a.stdevObs np act),
+          rowLine "R wres" np.m (a.wcoefRes np)])
 
 def step (s : St K) (line : String) : St K × String :=
   let ts := tokens line
@@ -39,7 +58,7 @@ def step (s : St K) (line : String) : St K × String :=
   | [] => (s, "")
   | ["net", m, n, m0] =>
     match m.toNat?, n.toNat?, (Wire.parse m0 : Option K) with
-    | some m, some n, some m0 => ({ np := some ⟨m, n, #[], #[], [], m0, []⟩ }, "")
+    | some m, some n, some m0 => ({ np := some ⟨m, n, #[], #[], [], m0, []⟩, act := .aposteriori }, "")
     | _, _, _ => (s, "bad-op")
   | _ =>
   match s.np with
@@ -48,11 +67,11 @@ def step (s : St K) (line : String) : St K × String :=
   match ts with
   | "row" :: k :: rest =>
     match k.toNat?, parseRow (K := K) rest with
-    | some kn, some r => if r.size = kn then ({ np := some { np with rows := np.rows.push r } }, "") else (s, "bad-op")
+    | some kn, some r => if r.size = kn then ({ s with np := some { np with rows := np.rows.push r } }, "") else (s, "bad-op")
     | _, _ => (s, "bad-op")
   | "rhs" :: rest =>
     match parseAll (K := K) rest with
-    | some vs => ({ np := some { np with rhs := vs.toArray } }, "")
+    | some vs => ({ s with np := some { np with rhs := vs.toArray } }, "")
     | none => (s, "bad-op")
   | "cluster" :: d :: b :: k :: rest =>
     match d.toNat?, b.toNat?, k.toNat? with
@@ -60,18 +79,20 @@ def step (s : St K) (line : String) : St K × String :=
       match (rest.take k).mapM bool?, parseAll (K := K) (rest.drop k) with
       | some act, some vs =>
         if act.length = k then
-          ({ np := some { np with clusters := np.clusters ++ [⟨⟨d, b, vs.toArray⟩, act⟩] } }, "")
+          ({ s with np := some { np with clusters := np.clusters ++ [⟨⟨d, b, vs.toArray⟩, act⟩] } }, "")
         else (s, "bad-op")
       | _, _ => (s, "bad-op")
     | _, _, _ => (s, "bad-op")
   | "minx" :: k :: rest =>
     match k.toNat?, rest.mapM (·.toNat?) with
-    | some kn, some l => if l.length = kn then ({ np := some { np with minx := l } }, "") else (s, "bad-op")
+    | some kn, some l => if l.length = kn then ({ s with np := some { np with minx := l } }, "") else (s, "bad-op")
     | _, _ => (s, "bad-op")
+  | ["act", "apriori"] => ({ s with act := .apriori }, "")
+  | ["act", "aposteriori"] => ({ s with act := .aposteriori }, "")
   | ["run", a] =>
     match Alg.parse a with
     | some alg =>
-      if np.rows.size = np.m ∧ np.rhs.size = np.m then (s, answerLines np alg) else (s, "bad-op")
+      if np.rows.size = np.m ∧ np.rhs.size = np.m then (s, answerLines np s.act alg) else (s, "bad-op")
     | none => (s, "bad-op")
   | _ => (s, "bad-op")
 
